@@ -49,6 +49,7 @@ type vfGrpCase struct {
 	Delays    map[string][]int     `json:"delays,omitempty"`
 	C12       *vfC12Ctl            `json:"c12,omitempty"`
 	Retention bool                 `json:"retention,omitempty"` // Consumer.Offsets.Retention set: commits go out as OffsetCommit v2
+	RetryMax  *int                 `json:"retryMax,omitempty"`  // Consumer.Group.Rebalance.Retry.Max (nil = 4)
 }
 
 type vfGrpEvent struct {
@@ -149,6 +150,9 @@ func (h *vfGrpHandler) ConsumeClaim(s ConsumerGroupSession, cl ConsumerGroupClai
 func vfGenGrpCase(t *rapid.T) *vfGrpCase {
 	c := &vfGrpCase{Strategy: rapid.SampledFrom([]string{"range", "roundrobin", "sticky"}).Draw(t, "strategy")}
 	c.Retention = rapid.IntRange(0, 2).Draw(t, "retention") == 0
+	if rm := rapid.SampledFrom([]int{4, 4, 4, 1, 0, 0}).Draw(t, "rebalanceRetryMax"); rm != 4 {
+		c.RetryMax = &rm
+	}
 	nT := rapid.IntRange(1, 2).Draw(t, "nTopics")
 	for ti := 0; ti < nT; ti++ {
 		nP := rapid.IntRange(1, 4).Draw(t, fmt.Sprintf("t%d.parts", ti))
@@ -306,6 +310,9 @@ func (c *vfGrpCase) config(run *vfGrpRun, m int) *Config {
 	conf.Consumer.Group.Heartbeat.Interval = 3 * time.Millisecond
 	conf.Consumer.Group.Rebalance.Timeout = 200 * time.Millisecond
 	conf.Consumer.Group.Rebalance.Retry.Max = 4
+	if c.RetryMax != nil {
+		conf.Consumer.Group.Rebalance.Retry.Max = *c.RetryMax
+	}
 	conf.Consumer.Group.Rebalance.Retry.Backoff = 2 * time.Millisecond
 	conf.Consumer.Group.Rebalance.Strategy = vfGrpStrategy(c.Strategy)
 	return conf
@@ -773,6 +780,9 @@ func vfOracleGrp(run *vfGrpRun, r *vfcore.Rec) *vfcore.Failure {
 	}
 	r.Class("strategy=" + c.Strategy)
 	r.Classf("retention=%v", c.Retention)
+	if c.RetryMax != nil {
+		r.Classf("rebalanceRetryMax=%d", *c.RetryMax)
+	}
 	r.Classf("members=%d", len(c.Members))
 	r.Classf("sessions=%d", sessions)
 	if disturbed {
